@@ -102,17 +102,45 @@ func runC04(t *testing.T, tape *sim.Tape, tier string) *Outcome {
 	chunk := tape.Draw(4, "chunkmode")
 	faulty := tape.Draw(4, "faulty") != 0
 	g := &wl.Gen{T: tape, Binary: true, CaseVary: true}
-	c := newConnRun(tape, o)
+	useExample := tape.Draw(4, "example") == 0
+	w := newWorld(tape, o)
+	if useExample {
+		// the bundled example store as the handler: stored (client-controlled) values come back in replies
+		w.useExample()
+		o.stat("runs_example_store", 1)
+	}
+	c := w.addConn()
 	c.chunkMode = chunk
 	var descs []string
 	var reqs []*wl.Req
+	hostile := func() string {
+		return []string{"\r\n+OK\r\n", "a\r\nb", "\r\n:1\r\n", "\r\n$-1\r\n", "x\ny", "\r", "plain", "", "*1\r\n$4\r\nPING\r\n", "-ERR x\r\n"}[tape.Draw(10, "hostile")]
+	}
 	for i := 0; i < n; i++ {
+		if useExample && tape.Draw(3, "stored") != 0 {
+			// write a hostile value / member / field / key, then read it back through every reply shape
+			k := "k" + hostile()
+			v := hostile()
+			seqs := [][][]string{
+				{{"SET", k, v}, {"GET", k}, {"GETSET", k, v}, {"APPEND", k, v}, {"GETRANGE", k, "0", "-1"}},
+				{{"HSET", "h" + k, v, v}, {"HGET", "h" + k, v}, {"HGETALL", "h" + k}, {"HKEYS", "h" + k}, {"HVALS", "h" + k}},
+				{{"RPUSH", "l" + k, v, v}, {"LRANGE", "l" + k, "0", "-1"}, {"LINDEX", "l" + k, "0"}, {"LPOP", "l" + k}},
+				{{"SADD", "s" + k, v}, {"SMEMBERS", "s" + k}},
+				{{"ZADD", "z" + k, "1", v}, {"ZRANGE", "z" + k, "0", "-1", "WITHSCORES"}, {"ZSCORE", "z" + k, v}},
+				{{"SET", k, v}, {"KEYS", "*"}, {"SCAN", "0"}, {"TYPE", k}, {"RENAME", k, k + v}, {"MGET", k, k + v}},
+			}
+			for _, a := range seqs[tape.Draw(len(seqs), "seq")] {
+				reqs = append(reqs, &wl.Req{Idx: len(reqs), Bytes: resp.Cmd(a...), Name: a[0], Class: fmt.Sprintf("%q", a)})
+				descs = append(descs, clipS(fmt.Sprintf("%q", a), 160))
+			}
+			continue
+		}
 		b, d, name := genClientValue(tape, g, i)
-		reqs = append(reqs, &wl.Req{Idx: i, Bytes: b, Name: name, Class: d})
+		reqs = append(reqs, &wl.Req{Idx: len(reqs), Bytes: b, Name: name, Class: d})
 		descs = append(descs, clipS(d, 160))
 	}
 	c.setReqs(reqs)
-	plan := make([]handlerResult, 6*n+8)
+	plan := make([]handlerResult, 6*len(reqs)+8)
 	for i := range plan {
 		if faulty {
 			plan[i] = drawHandlerResult(tape)
